@@ -64,9 +64,9 @@ Definition bhdr_ok (hd : bmp_hdr) : Prop :=
   b_w hd * (b_bpp hd / 8) <= b_roww hd /\
   cmap_ok (b_cmap hd) /\ (b_bpp hd <> 8 -> b_t hd <> TGray).
 
-Lemma bmp_header_spec maxpixels want s : bytes s ->
+Lemma bmp_header_spec guess maxpixels want s : bytes s ->
   (forall l, want = Some (TRgb l) -> 3 <= l_ps l <= 4) ->
-  match bmp_header maxpixels want s with
+  match bmp_header guess maxpixels want s with
   | BOk (hd, s') => bhdr_ok hd /\ bytes s' /\ (maxpixels = 0 \/ b_w hd * b_h hd <= maxpixels) /\
                     (length s' <= length s)%nat /\
                     (forall l, b_t hd = TRgb l -> 3 <= l_ps l <= 4)
@@ -139,8 +139,8 @@ Proof.
       + discriminate.
       + split; [discriminate|]. intros l E. inversion E; subst. apply Hw1'. reflexivity.
       + split; discriminate.
-      + split; [destruct (bpp =? 24); discriminate|].
-        intros l E. unfold ext_bgr, ext_bgra in E. destruct (bpp =? 24); inversion E; subst; cbn; lia. }
+      + split; [destruct guess; [discriminate|destruct (bpp =? 24); discriminate]|].
+        intros l E. unfold ext_rgb, ext_bgr, ext_bgra in E. destruct guess; [|destruct (bpp =? 24)]; inversion E; subst; cbn; lia. }
   destruct HT as [HT1 HT2].
   destruct (w * (bpp / 8) >? 4294967295) eqn:EW1; [discriminate|].
   destruct (w * target_ps t >? 4294967295) eqn:EW2; [discriminate|].
@@ -254,8 +254,8 @@ Section BmpReader.
     end.
   Proof.
     intros B Hw. unfold load_bmp, bbind.
-    pose proof (bmp_header_spec maxpixels want s B Hw) as H.
-    destruct (bmp_header maxpixels want s) as [[hd s1]|e]; [|exact H].
+    pose proof (bmp_header_spec false maxpixels want s B Hw) as H.
+    destruct (bmp_header false maxpixels want s) as [[hd s1]|e]; [|exact H].
     destruct H as (Hh & B1 & Lim & _ & _).
     pose proof (bmp_rows_spec hd (Z.to_nat (b_h hd)) s1 Hh B1) as R.
     destruct (bmp_rows cmyk hd _ s1) as [rows|e]; [|exact R].
